@@ -22,6 +22,17 @@ def gen_int(rng):
 
 def gen_float(rng):
     c = rng.random()
+    if c < 0.3:
+        # an arbitrary double (random mantissa, moderate exponent), written positionally with its shortest digits,
+        # sometimes with more digits than needed, sometimes exactly on a tie of the printed precision
+        import struct as _st
+        from decimal import Decimal as _D
+        e = rng.randint(1023 - 90, 1023 + 90)
+        bits = (e << 52) | rng.getrandbits(52) if rng.random() < 0.8 else (e << 52) | rng.choice([0, 1, (1 << 52) - 1, 1 << 51])
+        x = _st.unpack(">d", _st.pack(">Q", bits))[0]
+        t = format(_D(repr(x)), "f") if rng.random() < 0.7 else format(_D(x), "f")[:60]
+        if "." not in t: t += rng.choice([".0", ".", ".00"])
+        return ("-" if rng.random() < 0.3 else "") + t
     if c < 0.3: return rng.choice(["0.5", "-2.5", "1.0", "100.25", "0.125", "-0.0", "3.14", "0.1", "2.", "-.5", "1.5", "123456.789"])
     if c < 0.6: return "%d.%d" % (rng.randint(-1000, 1000), rng.randint(0, 999))
     if c < 0.8: return "%d.%0*d" % (rng.randint(0, 10**6), rng.randint(1, 12), rng.randint(0, 10**6))
